@@ -207,6 +207,7 @@ def wl_c03(tier, seed, shard, nshards):
     yield from take(many_groups_programs(), shard, nshards)
     yield from take(G.w_invalid(), shard, nshards)
     yield from take(G.w_stress(), shard, nshards)
+    yield from take(G.raw_valid_programs(), shard, nshards)
     yield from take(G.meta_operand_programs(), shard, nshards * (3 if tier == 'quick' else 1))
     yield from take(G.deep_programs(), shard, nshards)
     yield from take(G.many_operand_programs(), shard, nshards)
